@@ -4,6 +4,7 @@ import (
 	"fmt"
 	"go/types"
 	"os"
+	"strings"
 
 	"fqverif/fw"
 
@@ -13,6 +14,14 @@ import (
 // c13ExploreIdx: exploratory listing (C13_EXPLORE=1) of index / slice sites in jq-callable code that have no
 // proof of being in range. Not a rule.
 func c13ExploreIdx(p *fw.Program, scope []*ssa.Function) {
+	if want := os.Getenv("C13_SSA"); want != "" {
+		// debugging aid: print the SSA of every fq function whose name contains the given text
+		for _, fn := range p.FqFunctions() {
+			if strings.Contains(fn.String(), want) {
+				fn.WriteTo(os.Stdout)
+			}
+		}
+	}
 	if os.Getenv("C13_EXPLORE") == "" {
 		return
 	}
